@@ -163,6 +163,10 @@ func structTypeOf(slots []Slot) reflect.Type {
 				// a name part in front of typeOnly is legal and must be ignored
 				tagName = Names[(s.Spell/3)%4]
 			}
+		} else if s.Type >= 6 && s.Type < NumStruct && s.Name == strings.ToLower(Types[s.Type].Name()) {
+			// a value named after its (method-less) type is declared by embedding the type
+			f.Name = Types[s.Type].Name()
+			f.Anonymous = true
 		} else {
 			field, tn := spellName(s.Name, s.Spell)
 			if field == "" {
